@@ -137,7 +137,9 @@ func ruleSYM(c *Checker) {
 	}
 	// ---- SYM-4 ----
 	{
-		hk := findCalls(mixKey, func(ci ssa.CallInstruction) bool { return staticCalleeIs(ci.Common(), "golang.org/x/crypto/hkdf", "", "New") })
+		hk := findCalls(mixKey, func(ci ssa.CallInstruction) bool {
+			return staticCalleeIs(ci.Common(), "golang.org/x/crypto/hkdf", "", "New")
+		})
 		var reads []*ssa.Call
 		allInstrs(mixKey, func(in ssa.Instruction) {
 			if call, ok := in.(*ssa.Call); ok && call.Common().IsInvoke() && call.Common().Method.Name() == "Read" {
